@@ -172,6 +172,7 @@ def r13_4(ctx):
             for x in f[1:]:
                 if isinstance(x, tuple):
                     need |= {l for l in leafs(x) if l.startswith(f"F:{SL}.")}
+    need |= {l for l in leafs(ret_origin(F, rq)) if l.startswith(f"F:{SL}.")}     # a conjunct that is returned directly
     ctx.need(f"F:{SL}.num_solicitations" in need and f"F:{SL}.retry_rs_at" in need, "rs_required tests retry_rs_at and num_solicitations")
     have = set()
     for bi, bl in enumerate(pa.blocks):
